@@ -305,7 +305,10 @@ PROPS["C19"] = dict(
                 5: "completed-later-than-the-retransmission-schedule-allows", 6: "application-data-before-completion", "hang": "hang"},
     assumptions=["the network is the virtual-time network of the harness (zero latency, reliable once the scripted faults are used up); retransmission timeouts 100 ms doubling up to the maximum of 1000 ms (deliberately not a power-of-two multiple); "
                  "the application keeps reading (the dwell-period retransmissions happen inside Read): the client pings up to 8 times every 400 ms, the server leaves after 5 idle reads"],
-    trusted=["harness/internal/tk/vnet.go (virtual-time network and its event log)", "the record classifier of the harness (cmd/hx/c19.go c19Records)"],
+    trusted=["harness/internal/tk/vnet.go (virtual-time network and its event log)", "the record classifier of the harness (cmd/hx/c19.go c19Records)",
+             "coqchk (thorough tier) admits the nine enumeration libraries Proofs/DSimK2, DSimK3_0..7 (complete vm_compute enumerations of 115 000 and 1.7 million simulations, "
+             "which coqchk, having no VM, cannot replay in reasonable time): they are checked by coqc's kernel and VM only"],
+    coqchk_admit=["V.Proofs.DSimK2"] + ["V.Proofs.DSimK3_%d" % i for i in range(8)],
 )
 
 PROPS["C12"] = dict(
